@@ -1232,6 +1232,25 @@ class RejectDriver:
                 if st != "ok":
                     ctx.violation("C13/rejected_wellformed:predict_%s" % kind, {"teams": names, "exception": type(val).__name__, "message": str(val)[:200]})
             self.repeated_objects(names)
+            if not self.big_done:
+                self.big_done = True
+                self.big_game()
+
+    big_done = False
+
+    def big_game(self):
+        """Once per run: a well-formed game far larger than anything else here (300 teams of
+        one default player): rate with ranks, rate with scores, predict_win must be accepted."""
+        ctx = self.ctx
+        m = self.league.model
+        n = 300
+        for label, kw in (("ranks", {"ranks": list(range(1, n + 1))}), ("scores", {"scores": [float(n - i) for i in range(n)]}), ("omitted", {})):
+            teams = [[m.rating()] for _ in range(n)]
+            st, val = call_outcome(lambda: m.rate(teams, **kw))
+            ctx.evaluations += 1
+            ctx.count("big_game_300_teams")
+            if st != "ok" and isinstance(val, (TypeError, ValueError)):
+                ctx.violation("C13/rejected_wellformed:300_teams_%s" % label, {"exception": type(val).__name__, "message": str(val)[:200]})
 
     def repeated_objects(self, names):
         """Games in which the SAME rating object (or the same team list) appears twice.  The
@@ -1391,6 +1410,14 @@ class StoreDriver:
             return {"op": "DEEPCOPY_TEAMS", "teams": gen_match(rng, allnames, None, shape_max=(3, 3))}
         if r < 0.97:
             return {"op": "DEEPCOPY_HISTORY", "names": rng.sample(allnames, min(len(allnames), rng.randint(1, 3)))}
+        if r < 0.985 and r >= 0.975:
+            g = gen_rate_op(rng, ctx, self.A, names, 0.0, maker=p["maker"], rule=p["rule"], rosters=self.fixed_rosters(rng, names))
+            if g:
+                return {"op": "RATE2", "inner": g}
+        if r < 0.992 and r >= 0.985:
+            return {"op": "DECAY", "names": rng.sample(names, min(len(names), rng.randint(1, 3))), "factor": enc(rng.choice([1.05, 1.5, 0.9]))}
+        if r >= 0.996:
+            return {"op": "THREAD_BUILD", "threads": rng.choice([2, 3]), "each": rng.randint(1, 4), "path": rng.choice(["rating", "create_rating"])}
         if r < 0.971 and not self.mass_done:
             self.mass_done = True
             return {"op": "MASS_BUILD", "n": 66000, "path": rng.choice(["rating", "create_rating"])}
@@ -1417,6 +1444,82 @@ class StoreDriver:
         if self._rosters is None:
             self._rosters = make_rosters(rng, names)
         return self._rosters
+
+    def model2(self, L):
+        """A second model object of the same class with another tau (a placement queue): it
+        rates the league's own rating objects every now and then."""
+        m2 = getattr(L, "_model2", None)
+        if m2 is None or getattr(L, "_model2_lib", None) is not L.lib:
+            tau = dec(self.ctx.cfg["kwargs"]["tau"]) * 2.0 + 0.02 * dec(self.ctx.cfg["kwargs"]["beta"])
+            m2 = build_model(self.ctx.cfg, tau=tau, limit_sigma=not self.ctx.cfg["kwargs"]["limit_sigma"], lib=L.lib)
+            L._model2 = m2
+            L._model2_lib = L.lib
+        return m2
+
+    def op_RATE2(self, op):
+        """The same game in both twins, rated through each twin's SECOND model object."""
+        ctx = self.ctx
+        outs = []
+        for L in (self.A, self.B):
+            main = L.model
+            L.model = self.model2(L)
+            try:
+                outs.append(exec_call(ctx, L, op["inner"]))
+            finally:
+                L.model = main
+        self.compare("RATE2", outs[0]["out"], outs[1]["out"], op["inner"])
+        ctx.fault("second_model_rates_league_objects")
+        ctx.log("RATE2", outs[0]["out"])
+
+    def op_DECAY(self, op):
+        """The application changes ratings by plain attribute assignment (inactivity decay)
+        and stores the result - in both twins, on whatever objects each holds."""
+        ctx = self.ctx
+        f = dec(op["factor"])
+        for n in op["names"]:
+            if n not in self.A.players or n.startswith("b"):
+                continue
+            for L in (self.A, self.B):
+                p = L.players[n]
+                try:
+                    p.sigma = min(max(p.sigma * f, L.dom.sig_min), L.dom.sig_max) if p.sigma else p.sigma
+                except AttributeError:
+                    L.players[n] = L.factory.rating(p.mu, min(max(p.sigma * f, L.dom.sig_min), L.dom.sig_max), L.label(n))
+                L.save(n)
+        ctx.fault("decay_by_assignment")
+        ctx.log("DECAY", op["names"])
+
+    def op_THREAD_BUILD(self, op):
+        """Players are registered from several threads (one after the other - no race is
+        needed): every id must still be different from every other."""
+        import threading
+
+        ctx = self.ctx
+        m = self.B.model
+        built = []
+
+        def work(k):
+            for j in range(op["each"]):
+                if op.get("path") == "create_rating":
+                    built.append((k, type(m).create_rating([25.0 + j, 8.0], "w%d-%d" % (k, j))))
+                else:
+                    built.append((k, m.rating(name="w%d-%d" % (k, j))))
+
+        for k in range(op["threads"]):
+            t = threading.Thread(target=work, args=(k,))
+            t.start()
+            t.join()
+        ctx.evaluations += 1
+        ctx.fault("build_from_threads")
+        ids = [getattr(r, "id", None) for _, r in built]
+        if len(set(ids)) != len(ids):
+            ctx.violation("C20/id_not_fresh:built_in_threads", {"built": len(ids), "distinct_ids": len(set(ids))})
+        for r, path in self.ids:
+            if getattr(r, "id", None) in ids:
+                ctx.violation("C20/id_not_fresh:built_in_threads", {"collides_with": path})
+        for _, r in built:
+            self.ids.append((r, "thread_build"))
+        ctx.log("THREAD_BUILD", len(ids))
 
     def op_MASS_BUILD(self, op):
         """A big import: tens of thousands of ratings built in one go (more than 2**16); all
